@@ -57,9 +57,9 @@ func ByID(id string) *check.Property {
 		return nil
 	}
 	p := f()
-	if ops := thoroughOps[id]; len(ops) > 0 {
-		p.Thorough = sweep(p, ops)
-	}
+	ops := append([]mutOp{}, thoroughOps[id]...)
+	ops = append(ops, mutSwapStmts, mutDeleteStmt, mutNegateCond)
+	p.Thorough = sweep(p, ops)
 	return p
 }
 
